@@ -1,7 +1,7 @@
 (* C01 — every returned Manifold is a closed oriented 2-manifold or an empty error.
    Only statements closed by `exact`, each followed by Print Assumptions. *)
 From Coq Require Import ZArith List Bool.
-From MV Require Import Topo.CheckMeshDefs Topo.CheckMesh Topo.PipelineDefs Topo.Pipeline.
+From MV Require Import Topo.CheckMeshDefs Topo.CheckMesh Topo.PipelineDefs Topo.Pipeline Topo.HalfedgeDefs Topo.HalfedgeSmall.
 Import ListNotations.
 Local Open Scope Z_scope.
 
@@ -62,3 +62,18 @@ Theorem remove_unreferenced_no_stranded :
     count_stranded starts (remove_unreferenced starts isnan) = 0%nat.
 Proof. exact remove_unreferenced_spec. Qed.
 Print Assumptions remove_unreferenced_no_stranded.
+
+(* The IsManifold gate of the ported CreateHalfedges (src/impl.cpp: key construction,
+   stable sort, i <-> i+numEdge pairing, opposed-triangle removal with the in-place id
+   shuffle) - PARTIAL: proved by exhaustive evaluation for the bounded inputs named in the
+   statement, not for all triangle lists (the unbounded is_manifold_gate of DESIGN.md is
+   not proved).  For each such list of non-degenerate triangles: the model is defined
+   exactly when the number of halfedges is even; IsManifold(result) = `balanced`
+   (every directed edge occurs as often as its reverse); and when accepted, HalfedgeInv
+   holds, the live triangles are a sub-list of the input, still balanced, and an even
+   number of triangles was removed.  The same port is compared array-for-array with
+   Manifold::Impl::CreateHalfedges on generated soups (harness c01_topo). *)
+Theorem is_manifold_gate_partial :
+  sweep 4 0 && sweep 4 1 && sweep 4 2 && sweep 4 3 && forallb gate_case lists_4 && sweep 5 2 = true.
+Proof. exact gate_small. Qed.
+Print Assumptions is_manifold_gate_partial.
